@@ -71,7 +71,9 @@ EmitCase == c.ctor = "t" \/ ~Emit \/ PrintT(ToJson(Out))
 
 \* trace cases: [k, m, t, alt, d (0 = a scalar unrelated to t, else = t), ctor, got = <<..>>]
 TraceCase(r) == [k |-> 1, m |-> 1, t |-> 1, alt |-> r.alt, d |-> IF r.dsame THEN 1 ELSE 2, ctor |-> r.ctor]
-TraceExpect(r) == Triple([TraceCase(r) EXCEPT !.ctor = "pub"])
+\* combined one-script locks (check_adapter_sig verify; decrypt with the supplied scalar; check_sig): accept iff both hold
+TraceExpect(r) == LET s == [TraceCase(r) EXCEPT !.ctor = "pub"] IN
+                  IF r.combined THEN <<IF CheckOutcome(s) /\ DecVerifies(s) THEN "accept" ELSE "reject", "", "">> ELSE Triple(s)
 TraceAsCoded(r) == Triple(TraceCase(r))
 TraceCheck == c.ctor # "t" \/ PrintT(ToJson([i |-> c.i, v |-> IF TraceLog[c.i].got = TraceExpect(TraceLog[c.i]) THEN "ok"
                                                              ELSE IF TraceLog[c.i].ctor = "prv" /\ TraceLog[c.i].got = TraceAsCoded(TraceLog[c.i]) THEN "F13"
